@@ -43,6 +43,30 @@ def run(ctx):
         push_pairing(ctx, crate, tag)
         drain_type(ctx, crate, tag)
         ctx.guard("queued-in-consumer" + tag, queued_in_consumer, ctx, crate, crs, tag)
+        ctx.guard("one-encode-per-round" + tag, one_encode_per_round, ctx, crate, tag)
+
+
+def one_encode_per_round(ctx, crate, tag):
+    """run_sat hands *all* solvables selected since the last round to one Encoder::encode future and blocks on it once per
+    round of its main loop.  A block_on inside a nested loop (one encode per solvable) waits for the requests of one solvable
+    before it issues those of the next."""
+    R = "one-encode-per-round" + tag
+    b = body_by_key(crate, SOLVER + "run_sat")
+    if b is None:
+        ctx.ob(R, SOLVER + "run_sat", "exists", False, "", "run_sat not found")
+        return
+    loops = b.loops()
+    n = 0
+    for i, t in b.calls():
+        f = t.get("f")
+        if f is None or f["name"] != "block_on":
+            continue
+        n += 1
+        depth = sum(1 for h, body, back in loops if i in body)
+        ctx.ob(R, b.key, "block_on-once-per-round", depth <= 1, where_call(b, i),
+               "the encoder future is driven once per round of run_sat's main loop" if depth <= 1 else
+               "block_on sits in a loop nested inside run_sat's main loop (depth %d): the requests of the solvables selected in one round are issued one solvable after the other" % depth)
+    ctx.floor(R, "block_on calls in run_sat", n, 1)
 
 
 def solver_coroutines(crate):
